@@ -1,4 +1,5 @@
 import RlModel.Model.KernelFold
+import RlModel.Model.Type
 open RlModel
 
 /-!
@@ -174,7 +175,37 @@ def showKVal : KVal → String
   | .int w v => w.name ++ ":" ++ toString v
   | .str s => "s:" ++ hexOfBytes s.toUTF8.toList
 
-/-- `(f <expr>)`: `fold=<some v|none|panic> ;; rt=<ok v|err|panic> ;; <tags>` -/
+/-- SQL's CASE evaluates only the branch it takes. The evaluator (and `evalK`, which transcribes it)
+computes both branches on every row. `pruneCase` is the one-row constant expression with every CASE
+whose condition can be computed replaced by the branch taken — an EXPLANATION device of the `(f …)`
+stream (it tells "the error sits in a branch SQL never evaluates" from "the error is demanded"), not
+part of the verified model. -/
+def pruneCase : KExpr → KExpr
+  | .ite c t e =>
+    let c' := pruneCase c
+    match (evalK [] 1 c').1 with
+    | .ok cc => match cc.get0 with
+      | .bool true => pruneCase t
+      | .bool false => pruneCase e
+      | .null => pruneCase e
+      | _ => .ite c' (pruneCase t) (pruneCase e)
+    | _ => .ite c' (pruneCase t) (pruneCase e)
+  | .arith op a b => .arith op (pruneCase a) (pruneCase b)
+  | .cmp op a b => .cmp op (pruneCase a) (pruneCase b)
+  | .and a b => .and (pruneCase a) (pruneCase b)
+  | .or a b => .or (pruneCase a) (pruneCase b)
+  | .not a => .not (pruneCase a)
+  | .neg a => .neg (pruneCase a)
+  | .isnull a => .isnull (pruneCase a)
+  | .cast t a => .cast t (pruneCase a)
+  | .concat a b => .concat (pruneCase a) (pruneCase b)
+  | .like a p => .like (pruneCase a) p
+  | .substring a b c => .substring (pruneCase a) (pruneCase b) (pruneCase c)
+  | .replace a f t => .replace (pruneCase a) f t
+  | .repeat_ a k => .repeat_ (pruneCase a) (pruneCase k)
+  | e => e
+
+/-- `(f <expr>)`: `fold=<some v|none|panic> ;; rt=<ok v|err|panic> ;; <tags>` (tags: `illtyped`, `lazy:<v>`) -/
 def answerFold (e : KExpr) : String :=
   let fold := match foldC e with
     | .ok (some v) => "some " ++ showKVal v
@@ -186,8 +217,15 @@ def answerFold (e : KExpr) : String :=
     | .ok c => "ok " ++ showKVal c.get0
     | .err => "err"
     | .panic => "panic"
-  let ftags := if foldNullSubexprs e then ["fold:null-loses-type"] else []
-  "fold=" ++ fold ++ " ;; rt=" ++ rt ++ " ;; " ++ " ".intercalate (ftags ++ tags).eraseDups
+  -- `illtyped`: `analyze_type` rejects the expression (e.g. `'a' || NULL`, `- NULL`), so the binder
+  -- never hands it to folding or to the evaluator; the two are then not compared
+  let ftags := if (typeOf (toT [] e)).isNone then ["illtyped"] else []
+  -- `lazy:<v>`: eager evaluation fails, evaluation with SQL's lazy CASE gives `v`
+  let ltags := match r, (evalK [] 1 (pruneCase e)).1 with
+    | .ok _, _ => []
+    | _, .ok c => ["lazy:" ++ showKVal c.get0]
+    | _, _ => []
+  "fold=" ++ fold ++ " ;; rt=" ++ rt ++ " ;; " ++ " ".intercalate (ftags ++ ltags ++ tags).eraseDups
 
 /-- `ArrayExt::slice` (what `DataChunk::slice`, i.e. LIMIT / OFFSET, applies to every column):
 rebuilt with a builder from `get(i)`: validity kept, raw value under NULL = builder default. The
